@@ -57,3 +57,14 @@ Proof.
   - destruct f' as [|f']; [lia|]. cbn in *. destruct (cond s) as [[|]|]; try discriminate; try assumption.
     destruct (body s) as [s'|]; try discriminate. apply IH with (f' := f') in H; [assumption | lia].
 Qed.
+
+(* b[i] on a bytes object, i >= 0 here (negative indices count from the end in Python) *)
+Definition byte_at (b : list Z) (i : Z) : res Z :=
+  match (if i <? 0 then znth b (zlen b + i) else znth b i) with Some x => OK x | None => Err IndexError end.
+
+(* t[i] on a tuple *)
+Definition name_at {A} (l : list A) (i : Z) : res A :=
+  match (if i <? 0 then znth l (zlen l + i) else znth l i) with Some x => OK x | None => Err IndexError end.
+
+(* truth value of an Optional[str]: None and the empty string are false *)
+Definition name_truthy (o : option (list Z)) : bool := match o with Some (_ :: _) => true | _ => false end.
